@@ -123,7 +123,7 @@ def oraclesOnImpl (br : BR) (w : World) (exp : Exp) : List Step → List StepOut
   | _, _ => []
 
 /-- what the call did, for the distribution statistics -/
-def effectTags (st : Step) (w : World) (exp : Exp) (o : StepOut) : List String :=
+def effectTags (br : BR) (st : Step) (w : World) (exp : Exp) (o : StepOut) : List String :=
   let dropped := (w.deps.filter fun d => d.finalizer && (match o.w.find d.name with
     | some d' => !d'.finalizer
     | none => true)).length
@@ -131,6 +131,12 @@ def effectTags (st : Step) (w : World) (exp : Exp) (o : StepOut) : List String :
     | some d' => d'.replicas != d.replicas
     | none => false
   (if st.op = .fin then [s!"fin:dropped:{min dropped 4}"] else []) ++
+  (match w.find br.key with
+   | some sd =>
+     if st.op = .fin ∧ br.waitResume ∧ sd.ctrl = .none ∧ sd.paused = br.partition.isSome ∧ sd.statusReplicas ≠ sd.updatedReplicas then
+       [s!"fin:waitResume-retryOnReleased:{match o.res with | .ok => "ok" | .err => "err" | .notFound => "notFound" | .panic => "panic"}"]
+     else []
+   | none => []) ++
   (if st.op = .fin ∧ o.res = .err ∧ dropped > 0 then ["fin:partial"] else []) ++
   (if scaled then ["upgrade:scaled"] else []) ++
   (if o.w.deps.length > w.deps.length then ["init:created"] else []) ++
@@ -140,7 +146,7 @@ def effectTags (st : Step) (w : World) (exp : Exp) (o : StepOut) : List String :
 
 def effectTagsRun (br : BR) (w : World) (exp : Exp) : List Step → List StepOut → List String
   | st :: steps, o :: outs =>
-    effectTags st (applyEvent br st.ev w exp).1 (applyEvent br st.ev w exp).2 o ++ effectTagsRun br o.w o.exp steps outs
+    effectTags br st (applyEvent br st.ev w exp).1 (applyEvent br st.ev w exp).2 o ++ effectTagsRun br o.w o.exp steps outs
   | _, _ => []
 
 def faultTag (st : Step) : String :=
